@@ -63,7 +63,7 @@ package fasta
 //@     decreases (S.end - q) + (err == nil ? 1 : 0)
 
 //@ func reader.iter
-//@   props C07 C18
+//@   props C07 C18 C06 C01
 //@   yields Y
 //@   let active0 := r.r.fault && (!old(r.r.fired) || r.r.forever)
 //@   ensures !stopped && active0 ==> len(Y) > 0 && Y[len(Y)-1].1 == r.r.err
@@ -92,7 +92,7 @@ package fasta
 //@     splitvar t == IT - 1
 
 //@ func Reader
-//@   props C06 C07 C18
+//@   props C06 C07 C18 C01
 //@   yields Y
 //@   ensures forall t int :: 0 <= t && t < len(Y) && Y[t].1 != nil ==> t == len(Y)-1
 //@   ensures forall t int :: 0 <= t && t < len(Y) ==> (Y[t].1 != nil <==> Y[t].0 == nil)
